@@ -1,5 +1,5 @@
 from vlib.runner import Obl
-from props.common import vault_obligations, krow_obligations, ktab_obligations, TRUSTED as _T
+from props.common import ragged_obligations, vault_obligations, krow_obligations, ktab_obligations, TRUSTED as _T
 
 PROPERTY = "C01"
 EXPLANATION = (
@@ -32,3 +32,5 @@ for _fn in ['arow_set_small', 'arow_insert_small']:
                            bounds="real Row of two cell-runs with repeats in 1..2, positions <= 4, inserted repeat <= 2, probe <= 6",
                            encodes=["src/odfdo/row.py:Row", "src/odfdo/cell.py:Cell.repeated,_set_repeated,clone", "src/odfdo/element_cached.py (all)"],
                            stubs=["/verif/shadow/lxml (symdom)"]))
+
+OBLIGATIONS += ragged_obligations(1)
